@@ -262,12 +262,40 @@ fn big(rng: &mut Rng, n: usize, full: bool) -> Case {
     run.finish(vec![format!("big/{}{}", if full { "full" } else { "update" }, n)])
 }
 
+/// near the cap, then updates mixing cancels (of wanted CIDs, of CIDs never wanted, repeated) with more new wants than fit (C13 cap)
+fn big_mixed(rng: &mut Rng, n0: usize, bogus: usize, real: usize, new: usize, cancels_first: bool, rounds: usize) -> Case {
+    let mut run = Run::new(1);
+    run.new_conn(0);
+    let entries: Vec<Entry> = (0..n0 as u32).map(|i| entry(&tiny_cid(i), false, rng)).collect();
+    run.msg(0, Wantlist { entries, full: rng.chance(1, 2) });
+    for r in 0..rounds as u32 {
+        let mut cancels: Vec<Entry> = Vec::new();
+        let repeated = tiny_cid(200_000);
+        for i in 0..bogus as u32 {
+            let c = if rng.chance(1, 2) { repeated } else { tiny_cid(300_000 + 1000 * r + i) };
+            cancels.push(entry(&c, true, rng));
+        }
+        for i in 0..real as u32 {
+            cancels.push(entry(&tiny_cid(r * real as u32 + i), true, rng));
+        }
+        let wants: Vec<Entry> = (0..new as u32).map(|i| entry(&tiny_cid(400_000 + 1000 * r + i), false, rng)).collect();
+        let entries = if cancels_first { cancels.into_iter().chain(wants).collect() } else { wants.into_iter().chain(cancels).collect() };
+        run.msg(0, Wantlist { entries, full: false });
+    }
+    run.poll();
+    run.disconnected(0);
+    run.finish(vec![format!("bigmixed/{n0}+{bogus}b{real}r{new}n x{rounds}")])
+}
+
 pub fn run(seed: u64, n: usize, tier: &str) {
     let mut rng = Rng::new(seed);
     let sizes: &[usize] = if tier == "thorough" { &[0, 1, 1023, 1024, 1025, 2048, 5000] } else { &[0, 1, 1023, 1024, 1025, 1300] };
     for s in sizes {
         big(&mut rng, *s, true).print();
         big(&mut rng, *s, false).print();
+    }
+    for (n0, bogus, real, new, first, rounds) in [(1020usize, 8usize, 0usize, 60usize, true, 1usize), (1024, 20, 3, 30, false, 2), (1000, 5, 5, 40, true, 2), (1024, 0, 10, 25, rng.chance(1, 2), 1)] {
+        big_mixed(&mut rng, n0, bogus, real, new, first, rounds).print();
     }
     for i in 0..n {
         let len = if i % 5 == 0 { 60 } else { 8 + rng.usize(24) };
